@@ -41,7 +41,7 @@ var defaultExec = []string{
 
 func (e *Engine) execPkg(path string) bool {
 	for _, p := range e.execPfx {
-		if path == p || strings.HasPrefix(path, p+"/") {
+		if path == p || (strings.Contains(p, ".") && strings.HasPrefix(path, p+"/")) {
 			return true
 		}
 	}
@@ -224,7 +224,7 @@ func (e *Engine) Explore(fn *ssa.Function, unwind int) *HarnessResult {
 					}
 				}
 				if e.verbose {
-					fmt.Fprintf(os.Stderr, "  path %d %v: %s %s (%d steps)\n", res.Paths, pr.Trace, pr.Status, pr.Msg, pr.Steps)
+					fmt.Fprintf(os.Stderr, "  path %d %v: %s %s (%d steps) %v\n", res.Paths, pr.Trace, pr.Status, pr.Msg, pr.Steps, pr.EvStr)
 				}
 				mu.Unlock()
 				cond.Broadcast()
@@ -454,7 +454,11 @@ func (in *Interp) eventStrings() []string {
 		case "panic":
 			out = append(out, "panic:"+ev.Label)
 		case "obs":
-			out = append(out, "obs:"+ev.Label)
+			o := "obs:" + ev.Label
+			for _, v := range ev.Vals {
+				o += " " + in.describe(v)
+			}
+			out = append(out, o)
 		}
 	}
 	return out
